@@ -429,3 +429,48 @@ prop("C15", [
                                  "scenarios issue from gated threads that also park before every mutex acquisition, which "
                                  "is the granularity at which the pool/queue hand-over is explored"],
     bounds={"quick": "n<=3, D<=1 (late-answer scenarios D<=2)", "thorough": "n<=4, D<=2 (until the deadline)"})
+
+# ---- additions made after the rules above were written (appended to the rule text of the evidence files) -------------
+_EXTRA_RULE = {
+    "C02": "Added: request cookies that carry attributes; file responses (serveFile: sizes x name extensions x header / cookie "
+           "sets, all writes accepted or one short / would-block write) parsed back by the real ResponseParser; integers at "
+           "the digit-count boundaries of both signs in stream programs.",
+    "C03": "Added: the target / query modes' alphabet also has & ? / % #; (E) streamed bodies: head + pieces of 1..4000 bytes "
+           "(Content-Length and chunked, request and response) until 3 x the limit has been delivered - refused by the time the "
+           "limit is exceeded, retained bytes <= 2 x limit; part c03_server: the request-side inputs of (A), (C), (D) delivered "
+           "to one connection of a real Http::Handler + Tcp::Transport (one read / split at the seams / byte by byte) while a "
+           "bystander connection of the same worker is in mid-request - answers are well-formed 4xx/5xx (or 200 per handler run) "
+           "or the connection is left waiting, the bystander gets exactly its own 200, no exception leaves the loop, the "
+           "offender's state is gone after it hangs up.",
+    "C04": "Added: a response event whose Content-Length does not fit (range error in the reader); server side, every pair "
+           "(predecessor padded to exactly the 4096-byte read size ++ successor in the same write): handler requests and "
+           "statuses must equal those of the two messages each alone on a fresh connection.",
+    "C05": "Added: (F) file responses through Http::serveFile: file sizes {0,1,5,4096,70000} x name extensions x header / "
+           "cookie sets x every plan of socket answers with <= 1 (thorough 2) non-default answers among the first 4 write "
+           "calls, and limits around the head's exact size; request cookies with attributes; integers at digit-count boundaries.",
+    "C06": "Added: every other raw write is a buffer object holding more bytes than its length says (slack behind the length).",
+    "C07": "Added: part c07_idle - real gated endpoint under virtual time (time-outs 1 s / 2 s): A's response (small / 70000 "
+           "bytes) blocked for k = 0..5 (8) half-seconds, A sends half a further request at tick i or never, B's request at "
+           "tick j or never; B answered in the step its request arrives; after release A receives its complete response first "
+           "(a 408 and the close may follow), a completed further request is answered.",
+    "C08": "Added: environment fault 'the server's next read fails with ETIMEDOUT and nothing more comes from that peer'; part "
+           "c08_parked: the handler keeps the ResponseWriter on the heap with a 1.2 s response time-out armed and never "
+           "answers; the application drops the kept responses at the end of the history, then descriptors are compared.",
+    "C09": "Added: slow-acceptor cases - an acceptor parked before one of its lock acquisitions (in the middle of handing a "
+           "connection over) comes last in the canonical order, one deviation lets it finish at any earlier point.",
+    "C11": "Added: ownership family - src.then(f, Throw).then(g, h) for int and void sources x f returning value / nothing / "
+           "fulfilled / rejected / pending promise x source outcome x settled before/after x every subset of {source, derived1, "
+           "derived2} kept by the caller x resolver kept / discarded; parts c11_combinators_mt(+tsan): whenAny / whenAll over "
+           "two pending inputs settled by two threads, all schedules within the preemption bound under the C12 scheduler.",
+    "C12": "Added: scenarios in which the derived promise (from a void or an int source, value- or promise-returning or "
+           "rethrowing continuation) already carries a continuation when the race starts.",
+    "C15": "Added: two-host scenarios (127.0.0.1 and 127.0.0.2 are two authorities of the one scripted server; one host "
+           "saturated by a never-answered request with another waiting, either host first in issue order); part c15_reqqueue: "
+           "the per-host ring of waiting requests (MPMCQueue) instantiated with capacity 2, 4, 8 - every enqueue/dequeue "
+           "sequence of length 16 (thorough 20) against a bounded FIFO.",
+    "C18": "Added: (T) API sequences on built media types: 4 carriers x every sequence of <= 4 operations over {toString, "
+           "setQuality(0.5 / 1 / 0.05), setParam(charset), setParam(b), copy}; after every operation the string form parsed "
+           "back must describe the object.",
+}
+for _k, _v in _EXTRA_RULE.items():
+    PROPS[_k]["rule"] += " " + _v
